@@ -14,6 +14,7 @@ pub mod emit;
 pub mod kern;
 pub mod mem;
 pub mod oracle;
+pub mod pool;
 pub mod prng;
 pub mod report;
 pub mod search;
@@ -133,6 +134,7 @@ fn main() {
     let code = match args.first().map(|s| s.as_str()) {
         Some("search") => main_search(&args[1..]),
         Some("emit") => main_emit(&args[1..]),
+        Some("pool") => pool::main_pool(&args[1..]),
         Some("list") => {
             println!("{}", search::PROPERTIES.join(" "));
             println!("exports in tables: {}", tables::EXPORT_META.len());
